@@ -210,6 +210,69 @@ func runC19(c *Ctx) {
 	c.Rule("C19.prefix", "ToStrings: nil path => empty; target and origin are appended only when the prefix flag is set and they are non-empty, target before origin, both before any element; no elems => the deprecated element list is appended verbatim; otherwise per element its name, then its key value (one key) or sortedVals(keys) (several keys)")
 	c.Rule("C19.cp", "CompletePath decision table over the origin atoms")
 	c.Rule("C19.equal-arms", "value.Equal arm by arm (see rule text of the shared arm analysis)")
+	c.Rule("C19.scalar-exact", "value.FromScalar: the number, bool or string stored into a oneof wrapper (IntVal, UintVal, DoubleVal, BoolVal, StringVal) is the type-switched input itself or a plain Go conversion of it (widening: exact) - no call and no arithmetic lies between the input and the stored value (a detour through decimal text, rounding or scaling changes values that the plain conversion preserves)")
+	{
+		from := P.Func("value", "FromScalar")
+		if from == nil {
+			c.Unresolved("C19.scalar-exact", "value.FromScalar")
+		} else {
+			n := 0
+			for _, f := range withAnon(from) {
+				instrs(f, func(in ssa.Instruction) {
+					st, ok := in.(*ssa.Store)
+					if !ok {
+						return
+					}
+					fa, ok := st.Addr.(*ssa.FieldAddr)
+					if !ok {
+						return
+					}
+					nt, ok := deref(fa.X.Type()).(*types.Named)
+					if !ok || !strings.HasPrefix(nt.Obj().Name(), "TypedValue_") || !strings.Contains(pkgPathOfType(nt), "proto/gnmi") {
+						return
+					}
+					b, ok := st.Val.Type().Underlying().(*types.Basic)
+					if !ok || b.Info()&(types.IsNumeric|types.IsBoolean|types.IsString) == 0 {
+						return
+					}
+					n++
+					v := st.Val
+					why := ""
+					for i := 0; i < 8; i++ {
+						switch x := v.(type) {
+						case *ssa.Convert:
+							v = x.X
+							continue
+						case *ssa.ChangeType:
+							v = x.X
+							continue
+						}
+						break
+					}
+					okSrc := false
+					switch x := v.(type) {
+					case *ssa.Extract:
+						_, okSrc = x.Tuple.(*ssa.TypeAssert)
+					case *ssa.TypeAssert:
+						okSrc = true
+					case *ssa.Parameter:
+						okSrc = true
+					case *ssa.UnOp, *ssa.Index, *ssa.Phi, *ssa.Next:
+						// an element of the input (the string of a []string)
+						okSrc = true
+						if u, isU := x.(*ssa.UnOp); isU && u.Op != token.MUL {
+							okSrc = false
+						}
+					}
+					if !okSrc {
+						why = fmt.Sprintf("the stored value is computed by %T: %s", v, Expr(v))
+					}
+					c.Check(okSrc, "C19.scalar-exact", fnName(from), "value stored into "+nt.Obj().Name()+" ("+b.Name()+")", P.Pos(st.Pos()), why)
+				})
+			}
+			c.Floor("C19.scalar-exact/stores", n, 10)
+		}
+	}
 	c.Rule("C19.scalar-tables", "every oneof kind FromScalar can construct is converted by ToScalar without error; each ToScalar arm returns the getter of its own kind; both functions end in an error default")
 	c.Rule("C19.client-path", "client/gnmi.subscribe builds each subscription path from ygot.StringToPath(pathToString(q)); pathToString escapes the same separator constant it joins with, and writes only into a copy of the query path")
 	c.Rule("C19.alias", "append-ownership in packages path and client/gnmi")
@@ -740,4 +803,11 @@ func lenBoundsAt(f *ssa.Function, b *ssa.BasicBlock, X ssa.Value) (lo, hi int64)
 	}
 	r := at(b, 0)
 	return r.lo, r.hi
+}
+
+func pkgPathOfType(n *types.Named) string {
+	if n.Obj().Pkg() == nil {
+		return ""
+	}
+	return n.Obj().Pkg().Path()
 }
